@@ -11,7 +11,7 @@
     buffer) the model computes with [utf8_len] and the slice is [split_bytes],
     which is [None] exactly when Rust would panic (index inside a character).
     The directory tree and the environment are oracles ([fs], [getenv]). *)
-From Cicada Require Import Base.Chars Base.Tag Gen.EscapeClass Model.Tokenizer Model.Redirect Model.Cmds.
+From Cicada Require Import Base.Chars Base.Tag Base.Regex Gen.EscapeClass Gen.CompleterRegexes Model.Tokenizer Model.Redirect Model.Cmds.
 Local Open Scope N_scope.
 
 (** * tools::escape_path: every character of the class gets a backslash *)
@@ -101,13 +101,22 @@ Fixpoint neh_scan (prev_sp : bool) (only_sp : bool) (s : str) : bool :=
   end.
 Definition needs_expand_home (s : str) : bool := neh_scan false true s.
 
-(* for_cd: ^ *cd +  *)
-Fixpoint for_cd (s : str) : bool :=
-  match s with
-  | c :: r => if c =? c_space then for_cd r
-              else (c =? 99) && match r with d :: sp :: _ => (d =? 100) && (sp =? c_space) | _ => false end
-  | [] => false
-  end.
+(** * Which completer handles the line: the cascade of CicadaCompleter::complete
+    (src/completers/mod.rs). The five regex predicates are GENERATED from the source
+    (Gen/CompleterRegexes.v, tools/regex2coq.py); for_dots (a yaml file named after the
+    command exists in the user's completer directory) is an oracle. *)
+Definition for_make (l : str) : bool := rx_search rx_for_make l.
+Definition for_env (l : str) : bool := rx_search rx_for_env l.
+Definition for_ssh (l : str) : bool := rx_search rx_for_ssh l.
+Definition for_cd (l : str) : bool := rx_search rx_for_cd l.
+Definition for_bin (l : str) : bool := rx_search rx_for_bin1 l || rx_search rx_for_bin2 l.
+
+Inductive disp := DDots | DSsh | DMake | DBin | DEnv | DCd | DPath.
+(* the order of the tests in the source: dots, ssh, make, bin, env, cd (last, so that
+   cd $SOME_ENV<TAB> completes the variable), else the path completer *)
+Definition dispatch (dots : bool) (line : str) : disp :=
+  if dots then DDots else if for_ssh line then DSsh else if for_make line then DMake
+  else if for_bin line then DBin else if for_env line then DEnv else if for_cd line then DCd else DPath.
 
 (** * split_pathname (directory part up to and including the last slash, file part);
     a word holding a bar and not starting with a quote is first cut after its last bar *)
@@ -211,6 +220,7 @@ Inductive cres := CUnmodelled | COk (l : list completion).
 Section Oracles.
   Variable fs : str -> option (list entry).      (* read_dir + is_dir; None = cannot be read *)
   Variable getenv : str -> option str.
+  Variable dots : str -> bool.                   (* for_dots: a completion file exists for the line's command *)
 
   Definition complete_path (word : str) (for_dir : bool) : cres :=
     let is_env := is_env_prefix word in
@@ -243,6 +253,7 @@ Section Oracles.
   Inductive tabres :=
   | TPanic                      (* word_start inside a character: the slice panics *)
   | TUnmodelled
+  | TOther                      (* another completer (dots / ssh / make / bin / env) claims the line: not modelled *)
   | TSame                       (* no candidate: line unchanged *)
   | TOne (line : str) (c : completion)            (* one candidate: substituted, suffix appended *)
   | TMany (line : str) (cs : list completion).    (* several: longest common prefix substituted *)
@@ -251,11 +262,16 @@ Section Oracles.
     match split_bytes (escaped_word_start line) line with
     | None => TPanic
     | Some (pre, word) =>
-      match complete_path word (for_cd line) with
-      | CUnmodelled => TUnmodelled
-      | COk [] => TSame
-      | COk [c] => TOne (pre ++ cp_text c ++ [if cp_dir c then c_slash else c_space]) c
-      | COk cs => TMany (pre ++ lcp (map cp_text cs)) cs
+      match (match dispatch (dots line) line with
+             | DCd => Some (complete_path word true)       (* CdCompleter, no fall-back *)
+             | DPath => Some (complete_path word false)
+             | _ => None
+             end) with
+      | None => TOther
+      | Some CUnmodelled => TUnmodelled
+      | Some (COk []) => TSame
+      | Some (COk [c]) => TOne (pre ++ cp_text c ++ [if cp_dir c then c_slash else c_space]) c
+      | Some (COk cs) => TMany (pre ++ lcp (map cp_text cs)) cs
       end
     end.
 End Oracles.
